@@ -855,7 +855,7 @@ Lemma programLoop_S f acc st :
 Proof. reflexivity. Qed.
 
 Lemma parseStatement_braces f st :
-  ttype (curT st) = T_LBRACES -> parseStatement (S f) st = parseEmbeddedCode f st.
+  ttype (curT st) = T_LBRACES -> parseStatement (S f) st = parseBracesStmt f st.
 Proof. intro H. cbn [parseStatement]. rewrite H. reflexivity. Qed.
 
 (* the statement  {{ c }}  as a whole program: one expression statement holding the tree *)
@@ -885,7 +885,7 @@ Proof.
   subst ts. rewrite programLoop_S. unfold curIs at 1. cbn [curT toks initP hd]. rewrite Hlb.
   change (tok_eqb T_LBRACES T_EOF) with false. cbv iota.
   rewrite parseStatement_braces by (cbn [curT toks initP hd]; exact Hlb).
-  unfold parseEmbeddedCode.
+  unfold parseBracesStmt, parseEmbeddedCode.
   assert (Adv : advance (initP (lb :: flat c ++ [rb; eof])) = st1).
   { subst st1. rewrite Ea. reflexivity. }
   rewrite Adv.
@@ -900,7 +900,11 @@ Proof.
       destruct (ttype b); try reflexivity. congruence. }
   rewrite C2. unfold parseExpressionStmt. rewrite Ee.
   rewrite (proj1 (expectPeek_ok_peekIs _ _ _ _ _ Hrb)). rewrite advance_cons.
-  cbv beta iota. unfold curIs at 1. rewrite curT_cons, Hrb. change (tok_eqb T_RBRACES T_ILLEGAL) with false. cbv iota.
+  cbv beta iota.
+  (* no error was recorded and the parser stands on the closing braces *)
+  cbn [errs setToks initP List.length Nat.eqb negb orb]. unfold curIs at 1. rewrite curT_cons, Hrb.
+  change (tok_eqb T_RBRACES T_RBRACES) with true. cbn [orb]. cbv iota.
+  unfold curIs at 1. rewrite curT_cons, Hrb. change (tok_eqb T_RBRACES T_ILLEGAL) with false. cbv iota.
   cbn [stmt_is_null]. rewrite advance_cons. rewrite programLoop_S. unfold curIs. rewrite curT_cons, He.
   change (tok_eqb T_EOF T_EOF) with true. cbv iota. reflexivity.
 Qed.
